@@ -143,7 +143,7 @@ def run(ctx):
     for obs in res_nat + runs:
         case = obs['case']
         ev = (case.get('events') or [None])[0]
-        site = case.get('_site')
+        site = ((obs.get('landed') or [{}])[0].get('site')) or case.get('_site')      # where it really landed in this run
         ctx.count()
         ctx.distinct((case['kind'], case['target'], case.get('observe'), ev['action'] if ev else None, ev['k'] if ev else None))
         v = judge(case, obs)
